@@ -633,6 +633,12 @@ class Interp:
                 # a generator that cannot be evaluated eagerly (e.g. an open-ended loop): an opaque iterator
                 self.run.event("call_generator", func=qn, args=args, kwargs=kwargs, node=node)
                 result = Unknown(self.run.new_tag(f"{qn}(...)"), {"generator": qn, "expr": f"{qn}(...)"})
+            if gen_mode:
+                # a generator object: consumed by its first use
+                if isinstance(result, (ListV, AbsList)):
+                    result.one_shot = True      # type: ignore[union-attr]
+                elif isinstance(result, Unknown):
+                    result.meta["one_shot"] = True
             if memo_key is not None:
                 self.run.const_cache[memo_key] = result
             return result
@@ -1331,7 +1337,12 @@ class Interp:
         return self.bi.comprehension(e, e.elt, e.generators, fr, "list")
 
     def ex_GeneratorExp(self, e: ast.GeneratorExp, fr: Frame) -> Value:
-        return self.bi.comprehension(e, e.elt, e.generators, fr, "list")
+        v = self.bi.comprehension(e, e.elt, e.generators, fr, "list")
+        if isinstance(v, (ListV, AbsList)):
+            if isinstance(v, ListV):
+                v = ListV(list(v.items)) if v.absorbed is None else v
+            v.one_shot = True        # type: ignore[union-attr]  (a generator object: consumed by its first use)
+        return v
 
     def ex_SetComp(self, e: ast.SetComp, fr: Frame) -> Value:
         v = self.bi.comprehension(e, e.elt, e.generators, fr, "list")
